@@ -118,11 +118,12 @@ func (sm *Subscriptions) ProcessWhen(activated, deactivated S) []chan struct{} {
 	// TODO optimize by skipping
 	ret := sm.processWhenCtx()
 
-	// collect matched bindings
+	// update the indexes of all the bindings first, as a binding can match
+	// several of the changed states
 	all := slices.Concat(activated, deactivated)
+	var touched []*WhenBinding
 	for _, s := range all {
-		// TODO optimize clone
-		for _, binding := range slices.Clone(sm.when[s]) {
+		for _, binding := range sm.when[s] {
 
 			if slices.Contains(activated, s) {
 
@@ -160,16 +161,23 @@ func (sm *Subscriptions) ProcessWhen(activated, deactivated S) []chan struct{} {
 				binding.States[s] = false
 			}
 
-			// if not all matched, ignore for now
-			expired := binding.Ctx != nil && binding.Ctx.Err() != nil
-			if binding.Matched < binding.Total && !expired {
-				continue
+			if !slices.Contains(touched, binding) {
+				touched = append(touched, binding)
 			}
-
-			// completed - rm binding and collect ch
-			sm.gcWhenBinding(binding, true)
-			ret = append(ret, binding.Ch)
 		}
+	}
+
+	// collect matched bindings
+	for _, binding := range touched {
+		// if not all matched, ignore for now
+		expired := binding.Ctx != nil && binding.Ctx.Err() != nil
+		if binding.Matched < binding.Total && !expired {
+			continue
+		}
+
+		// completed - rm binding and collect ch
+		sm.gcWhenBinding(binding, true)
+		ret = append(ret, binding.Ch)
 	}
 
 	return ret
